@@ -199,7 +199,12 @@ PROPS = {
     ),
     'C01': dict(
         title='providedBy/implementedBy report exactly the declared and inherited interfaces',
-        contracts=['C02_spec', 'C01_decl'], falsifier='C01', modes=['py', 'c'], level='other',
+        contracts=['C02_spec', 'C01_decl', 'C02_c'], cfun=['C01_c', 'C02_c'], falsifier='C01', modes=['py', 'c'], level='other',
+        level_text_extra=' The C twins are verified from the clang AST of the real file: getObjectSpecification and providedBy against the SAME postconditions '
+                         'as the Python functions (attribute-protocol oracles shared), implementedBy as a fast path in front of the Python implementedBy '
+                         '(an Implements in the own class dictionary, else a registered builtin specification, else -- super proxies, unreadable '
+                         'dictionaries, old-style declarations -- the fallback) (contracts/C01_c.py), and I.providedBy / I.implementedBy / isOrExtends in '
+                         'both implementations against membership in the _implied mapping of the declaration (contracts/C02_c.py).',
         only={'C02_spec': ['interface.py:Specification.changed', 'interface.py:Specification.__setBases']},
         level_text='Verified from the real bodies of declarations.py: _classImplements_ordered keeps everything already declared, adds '
                    'every new interface the specification does not already imply (only redundant ones may be dropped), invents nothing, '
@@ -317,7 +322,9 @@ PROPS = {
     ),
     'C19': dict(
         title='super() proxies see only the remainder of the MRO',
-        contracts=['C19_super', 'C01_decl'], falsifier='C19', modes=['py', 'c'], level='other',
+        contracts=['C19_super', 'C01_decl'], cfun=['C01_c'], falsifier='C19', modes=['py', 'c'], level='other',
+        level_text_extra=' C side (contracts/C01_c.py, from the clang AST): providedBy answers a super proxy by implementedBy alone and the C implementedBy hands '
+                         'every super proxy to the Python fallback (_implementedBy_super, verified above) without looking at any dictionary.',
         only={'C01_decl': ['declarations.py:providedBy', 'declarations.py:getObjectSpecification', 'declarations.py:ObjectSpecificationDescriptor.__get__']},
         level_text="_next_super_class and _implementedBy_super are verified from their real bodies: for s = super(C, ob) the returned "
                    "specification has exactly the bases [implementedBy(c) for c in type(ob).__mro__ after C], whether it is built or "
@@ -368,7 +375,7 @@ PROPS = {
     ),
     'C10': dict(
         title='The C accelerator is observationally equivalent to the Python reference',
-        contracts=[], cfun=['C12_c', 'C14_c', 'C05_c', 'C06_c', 'C02_c'], falsifier='C10', modes=['py', 'c'], level='other', differential=True,
+        contracts=[], cfun=['C12_c', 'C14_c', 'C05_c', 'C06_c', 'C02_c', 'C01_c'], falsifier='C10', modes=['py', 'c'], level='other', differential=True,
         cfunctions=['_subcache', '_getcache', '_lookup', '_lookup1', '_adapter_hook', '_lookupAll', '_subscriptions', 'IB__adapt__', 'SB_extends', 'SB_providedBy', 'SB_implementedBy'],
         creturns={'_subcache': 'borrowed', '_getcache': 'borrowed'},
         level_text='Bounded differential check: six generated API programs (about 18k steps: registry chains 3-4 deep of both flavours with a mutation at every level and warm leaf caches, specification queries, comparison and hashing, '
@@ -380,9 +387,11 @@ PROPS = {
                    'IB__adapt__ / __adapt__ and IB__call__ / __call__ (decision list of the adaptation protocol, C14), _getcache/_lookup/_lookup1/_adapter_hook/_lookupAll/_subscriptions/LB_changed and their '
                    'LookupBase twins (cache-soundness invariant and result clauses, C05/C08), _verify/verify_changed/VB_* and the VerifyingBase '
                    'twins (generation snapshot, C06), SB_extends/SB__call__/SB_providedBy/SB_implementedBy and the SpecificationBase twins '
-                   '(membership in _implied, C02); more pairs are listed in the evidence as they are added. '
+                   '(membership in _implied, C02), getObjectSpecification and providedBy against the postconditions of the Python functions, '
+                   'implementedBy as fast path in front of the Python fallback (C01); more pairs are listed in the evidence as they are added. '
                    'The ownership obligations of the C functions (see C11) are discharged as part of this check.',
-        level_note='equivalence of the twins that are not listed as verified pairs is bounded (fixed programs and argument pool): implementedBy, providedBy, getObjectSpecification, the descriptors; the CPython API '
+        level_note='equivalence of the twins that are not listed as verified pairs is bounded (fixed programs and argument pool): the two descriptors (OSD_descr_get, CPB_descr_get), IB__init__, and the agreement of the Python '
+                   'implementedBy with the C fast path on its two fast cases; the CPython API '
                    'models of the C contract modules are trusted.',
         explanation='differential execution of generated programs under both implementations; ownership obligations of the C twins discharged',
         not_decided=['programs reaching C-only behaviour through user subclasses overriding the hooks', 'pre-3.11 static-type branch of the C file, PyPy'],
